@@ -71,8 +71,8 @@ theorem preprocessed_goodQ (E : Env) (t t' : Tree)
   simp
 
 variable {E : Env} (hE : EnvOK E) (hG : GraphWF E.G)
-  (hKS : KeySem E noCtx E.G.unit0) (hKW : KeyWild E noCtx E.G.unit0) (hA : C12.GraphAsync E.G) (hattr : AttrSpec E)
-include hE hG hKS hKW hA hattr
+  (hKS : KeySem E noCtx E.G.unit0) (hKW : KeyWild E noCtx E.G.unit0) (hA : C12.GraphAsync E.G)
+include hE hG hKS hKW hA
 
 /-- MAIN: evaluating any list of preprocessed plain formulae the graph supports — with ANY duplicate map whose
 keys have at most one variable (as `mark_duplicates` produces), in particular with the real one — returns a
@@ -83,11 +83,11 @@ theorem no_panic_trees (trees : List Tree) (D : DupMap)
     (hD : ∀ key n, dupGet key D = some n → ∀ t U ds ren, GoodQ E noCtx E.G.unit0 t U ds →
       keyOf t (fvdOf ds) = (key, ren) → ren.length ≤ 1) :
     ∃ rs, Api.evalAll E (Ops.steadyOf E E.G.unit0) E.G.unit0 trees { dups := D } = .ok rs :=
-  let ⟨rs, h, _, _⟩ := C04.batch_sound hE hG (ctxOK_noCtx E) hKS hKW hA hattr trees { dups := D } hq rfl
+  let ⟨rs, h, _, _⟩ := C04.batch_sound hE hG (ctxOK_noCtx E) hKS hKW hA trees { dups := D } hq rfl
     (C04.init_cacheOK_plain hE hG D hD)
   ⟨rs, h⟩
 
-omit hE hG hKS hKW hA hattr in
+omit hE hG hKS hKW hA in
 /-- the error classes of the model's string entry point, for inputs that tokenize and parse: an error is
 returned exactly when the formula is not well scoped over the network's propositions (a free or re-quantified
 variable, an unknown proposition), or needs more variable sets than the graph offers -/
